@@ -70,6 +70,12 @@ def fixed_scenarios():
     out.append(p.scn("three creations for one free slot", [("new", 0), ("new", 0), ("new", 0)]))
     p = P([[2, 8], [6, 8], [6, 8]]); a = p.new(0); b = p.new(1); c = p.new(2)
     out.append(p.scn("two arrivals and a creation for one free slot", [("send", b, 0), ("send", c, 0), ("new", 0)]))
+    p = P([[3, 8], [6, 8], [6, 8]]); x = p.new(0); y = p.new(0); z = p.new(0); z1 = p.send(z, 1); b = p.new(1); c = p.new(2)
+    out.append(p.scn("two arrivals for one free slot while the node lock is busy with a remote gate", [("g1", z1, "H"), ("send", b, 0), ("send", c, 0)]))
+    out.append(p.scn("two creations and an arrival for one free slot while the node lock is busy", [("g1", z1, "H"), ("new", 0), ("new", 0), ("send", b, 0)]))
+    p = P(); x = p.new(0); x1 = p.send(x, 1); y = p.new(1)
+    out.append(p.scn("creations racing with a remote measurement that holds the node lock", [("meas", x1, 1), ("new", 0), ("new", 0), ("g1", y, "X")],
+                     {str(x): [1, 0]}))
     p = P(); a = p.new(0); b = p.new(1); c = p.new(2)
     out.append(p.scn("sends that do not cross", [("send", a, 1), ("send", c, 1), ("g1", b, "H")]))
     p = P(); a = p.new(0); b = p.new(1)
@@ -206,7 +212,42 @@ def describe(pid, scn, res, j):
     return ("%s: results %r / final state of the concurrent run of %r equal no sequential order" % (scn["name"], res.results, scn["ops"]))
 
 
-def explore(ctx, pid, scenarios, per_scn, env):
+def cases_text(cases):
+    return (common.CASE_HEADER + "From SQ Require Import Base.ListUtil Conc.Model Conc.Cases.\n"
+            "Definition cases : list (nat * list okind * list ev * list nat * list nat * nat) := [\n"
+            + ";\n".join(cases) + "\n].\nEval vm_compute in (map check_case cases).\n")
+
+
+def tie_model_l(ctx, cases, shard=60):
+    """cases: list of (coq text or None, description)"""
+    good = [(c, d) for (c, d) in cases if c is not None]
+    unattributed = len(cases) - len(good)
+    ctx.count("traces_checked_against_model_L", len(good))
+    if unattributed:
+        ctx.count("traces_with_unattributed_lock_events", unattributed)
+    shards = [good[i:i + shard] for i in range(0, len(good), shard)]
+    res = common.coq_eval_many([cases_text([c for c, _ in sh]) for sh in shards])
+    bad, okall = [], True
+    for sh, (ok, out) in zip(shards, res):
+        lists = common.parse_nat_lists(out) if ok else []
+        if not ok or len(lists) != 1 or len(lists[0]) != len(sh):
+            ctx.obligation("model L case file evaluates in Coq", False, out[-1500:])
+            okall = False
+            continue
+        for (c, d), v in zip(sh, lists[0]):
+            if v != 0:
+                bad.append((v, d, c))
+    detail = ""
+    if bad:
+        v, d, c = bad[0]
+        why = {1: "completed operations differ", 2: "held node locks differ", 3: "model can still move in a quiescent/deadlocked state"}.get(v, "event %d rejected" % (v - 10))
+        detail = "%d traces disagree; first: %s: %s; case %s" % (len(bad), d, why, c[:900])
+    ctx.obligation("model L (Conc/Model.v) accepts the recorded lock-event trace of every explored schedule (%d traces) and predicts the completed "
+                   "operations and the held node locks" % len(good), okall and not bad and not unattributed, detail or ("%d traces with unattributed events" % unattributed if unattributed else ""))
+    return bad
+
+
+def explore(ctx, pid, scenarios, per_scn, env, cases=None):
     stats = ctx.coverage
     fails = {}
     runs = []
@@ -225,6 +266,8 @@ def explore(ctx, pid, scenarios, per_scn, env):
             p_tick = ctx.rng.choice([0.0, 0.03, 0.1, 0.3, 0.6])
             res = conc.run_concurrent(env, scn, seed=seed, p_tick=p_tick, p_idle=ctx.rng.choice([0.0, 0.1, 0.3]))
             j = judge(res, scn, seqs)
+            if cases is not None:
+                cases.append((conc.coq_case(res), "%s seed %d ops %r" % (scn["name"], seed, scn["ops"])))
             ctx.count("schedules")
             ctx.count("schedule_choices", len(res.schedule))
             ctx.count("ops_" + footprint(scn))
@@ -260,7 +303,23 @@ def report_failures(ctx, pid, fails):
         ctx.report(key, describe(pid, scn, res, j), replay_obj(scn, res, j), found_input=True)
 
 
-def replay_witnesses(ctx, pid, env):
+THEOREM_TRACE = {("C04", KEY_D6): ("leak_trace", "%s", "C04_orphan_lock_leak"),
+                 ("C03", KEY_D6): ("steal_trace", "firstn 14 %s", "C03_serializable_refuted / C03_foreign_release")}
+
+
+def theorem_trace_is_recorded(ctx, pid, key, res):
+    """the concrete trace inside a `_refuted` theorem must be the lock-event trace the implementation produces on the listed witness"""
+    if (pid, key) not in THEOREM_TRACE:
+        return
+    name, pat, thm = THEOREM_TRACE[(pid, key)]
+    evs = conc.coq_events(res)
+    text = (common.CASE_HEADER + "From SQ Require Import Base.ListUtil Conc.Model Conc.Orphan.\n"
+            "Goal %s = %s.\nProof. reflexivity. Qed.\n" % (name, pat % ("[" + "; ".join(evs or []) + "]")))
+    ok, out = common.coq_eval(text, tag="wtrace")
+    ctx.obligation("the trace in theorem %s is the lock-event trace of the implementation on the listed witness" % thm, ok and evs is not None, out[-800:])
+
+
+def replay_witnesses(ctx, pid, env, cases=None):
     """corpus first: the witnesses of the listed findings are replayed; one that still fails prints its KNOWN-FINDING line"""
     for k in ctx.known:
         w = k.get("witness") or {}
@@ -272,10 +331,14 @@ def replay_witnesses(ctx, pid, env):
         j = judge(res, scn, seqs)
         failed = j["c03_fail"] if pid == "C03" else j["c04_fail"]
         ctx.count("witnesses_replayed")
+        if cases is not None:
+            cases.append((conc.coq_case(res), "witness of %s" % k["key"]))
         if failed:
             key = KEYS.get(j["class"]) or "%s:unlisted:%s" % (pid, footprint(scn))
             ctx.count("witnesses_still_failing")
             ctx.report(key, describe(pid, scn, res, j), replay_obj(scn, res, j), found_input=True)
+            if key == k["key"]:
+                theorem_trace_is_recorded(ctx, pid, key, res)
         conc.dispose(res)
 
 
@@ -309,14 +372,18 @@ def run_property(ctx, pid):
         run_replay(ctx, pid, env)
         return env, {}, []
     thorough = ctx.tier == "thorough"
-    replay_witnesses(ctx, pid, env)
+    cases = []
+    replay_witnesses(ctx, pid, env, cases)
     fixed = fixed_scenarios()
-    nrand = 600 if thorough else 28
-    per_fixed = 60 if thorough else 7
-    per_rand = 20 if thorough else 6
-    f1, r1 = explore(ctx, pid, fixed, per_fixed, env)
+    nrand = 600 if thorough else 70
+    per_fixed = 60 if thorough else 12
+    per_rand = 20 if thorough else 8
+    f1, r1 = explore(ctx, pid, fixed, per_fixed, env, cases)
     rnd = [random_scenario(ctx.rng, i) for i in range(nrand)]
-    f2, r2 = explore(ctx, pid, rnd, per_rand, env)
+    f2, r2 = explore(ctx, pid, rnd, per_rand, env, cases)
+    if thorough and len(cases) > 3000:
+        cases = [cases[i] for i in sorted(ctx.rng.sample(range(len(cases)), 3000))]
+    bad_tie = tie_model_l(ctx, cases)
     fails = dict(f2)
     fails.update(f1)
     report_failures(ctx, pid, fails)
